@@ -118,6 +118,130 @@ Theorem c11_build_direct_as_build_with : forall b x, build_direct b = Some x ->
   build_with b [(direct_shape (length (b_regions b)) (b_sets b), map Z.of_nat (seq 0 (length (b_sets b))))] = Some x.
 Proof. exact build_direct_as_build_with. Qed.
 
+(* ---- deepening round: avar monotonicity, metrics glue, raw row layout / totality, split rule ---- *)
+(* SegmentMaps::apply, with the mul_div rounding as implemented, is monotone for a monotone map (from strictly
+   increasing, to non-decreasing, first point not below and last point not above the diagonal) — for ALL coordinates *)
+Theorem c11_avar_monotone_if_map_monotone : forall maps c1 c2, monotone_map maps -> c1 <= c2 ->
+  avar_apply maps c1 <= avar_apply maps c2.
+Proof. exact avar_monotone_if_map_monotone. Qed.
+(* the whole user -> normalized F2Dot14 pipeline (normalize, segment map, to_f2dot14 rounding) is monotone *)
+Theorem c11_user_to_normalized_monotone : forall mn df mx maps u1 u2 r1 r2,
+  i32 mn -> i32 df -> i32 mx -> i32 u1 -> i32 u2 -> u1 <= u2 ->
+  match maps with Some m => monotone_map m | None => True end ->
+  user_to_normalized1 mn df mx maps u1 = Some r1 -> user_to_normalized1 mn df mx maps u2 = Some r2 -> r1 <= r2.
+Proof. exact user_to_normalized_monotone. Qed.
+
+(* compute_delta over the raw subtable bytes never panics and never indexes out of range, for ANY header values *)
+Theorem c11_compute_delta_total : forall regions subs outer inner coords,
+  Forall (Forall axis16) regions -> Forall i16 coords ->
+  (forall rs, In (Some rs) subs -> Z.of_nat (length (rs_regions rs)) <= 65535) ->
+  compute_delta_raw regions subs outer inner coords <> Panic /\
+  (forall rs, nth_error subs (Z.to_nat outer) = Some (Some rs) ->
+     Forall (fun ri => 0 <= ri < Z.of_nat (length regions)) (rs_regions rs) ->
+     exists v, compute_delta_raw regions subs outer inner coords = Ok v).
+Proof. exact compute_delta_total. Qed.
+(* row layout: fixed stride delta_row_len; wide cells first (32/16 bits), narrow after (16/8), all wide and padded
+   when the word count exceeds the column count *)
+Theorem c11_delta_set_layout : forall wdc rc (rows : list (list Z * list Z)) inner,
+  let wc := Z.land wdc 32767 in
+  let long := negb (Z.land wdc 32768 =? 0) in
+  0 <= rc -> 0 <= delta_row_len wdc rc ->
+  Forall (fun r => Z.of_nat (length (fst r)) = rc /\
+                   Z.of_nat (length (enc_cells wc long 0 (fst r) ++ snd r)) = delta_row_len wdc rc /\
+                   Forall2 (fun v p => - 2 ^ (cell_width wc long p - 1) <= v < 2 ^ (cell_width wc long p - 1)) (fst r)
+                           (map (fun k => 0 + Z.of_nat k) (seq 0 (length (fst r))))) rows ->
+  (inner < length rows)%nat ->
+  delta_set_bytes wdc rc (flat_map (fun r => enc_cells wc long 0 (fst r) ++ snd r) rows) (Z.of_nat inner)
+  = fst (nth inner rows ([], [])).
+Proof. exact delta_set_layout. Qed.
+Theorem c11_stride_is_row_length : forall wdc rc cells, 0 <= rc -> Z.of_nat (length cells) = rc ->
+  Z.of_nat (length (enc_cells (Z.land wdc 32767) (negb (Z.land wdc 32768 =? 0)) 0 cells))
+  = delta_row_len wdc rc - (if negb (Z.land wdc 32768 =? 0) then 4 else 2) * Z.max 0 (Z.land wdc 32767 - rc).
+Proof. exact stride_is_row_length. Qed.
+Theorem c11_compute_delta_raw_spec : forall regions subs outer inner coords rs (rows : list (list Z * list Z)),
+  let wdc := rs_wdc rs in
+  let rc := Z.of_nat (length (rs_regions rs)) in
+  let wc := Z.land wdc 32767 in
+  let long := negb (Z.land wdc 32768 =? 0) in
+  coords <> [] -> nth_error subs (Z.to_nat outer) = Some (Some rs) ->
+  Forall (Forall axis16) regions -> Forall i16 coords ->
+  rc <= 65535 -> 0 <= delta_row_len wdc rc ->
+  Forall (fun r => Z.of_nat (length (fst r)) = rc /\
+                   Z.of_nat (length (enc_cells wc long 0 (fst r) ++ snd r)) = delta_row_len wdc rc /\
+                   Forall2 (fun v p => - 2 ^ (cell_width wc long p - 1) <= v < 2 ^ (cell_width wc long p - 1)) (fst r)
+                           (map (fun k => 0 + Z.of_nat k) (seq 0 (length (fst r))))) rows ->
+  rs_data rs = flat_map (fun r => enc_cells wc long 0 (fst r) ++ snd r) rows ->
+  (inner < length rows)%nat ->
+  Forall (fun ri => 0 <= ri < Z.of_nat (length regions)) (rs_regions rs) ->
+  compute_delta_raw regions subs outer (Z.of_nat inner) coords
+  = Ok (wrap_s 32 ((delta_sum regions (rs_regions rs) (fst (nth inner rows ([], []))) coords + 32768) / 65536)).
+Proof. exact compute_delta_raw_spec. Qed.
+
+(* metrics glue *)
+Theorem c11_hvar_index_clamps : forall (m : dsim) gid, let '(_, mc, _) := m in 0 < mc -> mc <= gid ->
+  dsim_lookup m gid = dsim_lookup m (mc - 1).
+Proof. exact hvar_index_clamps. Qed.
+Theorem c11_hvar_index_packed : forall es ib (entries : list (Z * Z)) gid,
+  1 <= es <= 4 -> 1 <= ib <= 16 -> entries <> [] ->
+  Forall (fun e => 0 <= fst e < 65536 /\ 0 <= snd e < 2 ^ ib /\ packed ib e < 256 ^ es) entries -> 0 <= gid ->
+  dsim_lookup ((es - 1) * 16 + (ib - 1), Z.of_nat (length entries),
+               flat_map (fun e => to_be (Z.to_nat es) (packed ib e)) entries) gid
+  = Some (nth (Z.to_nat (Z.min gid (Z.of_nat (length entries) - 1))) entries (0, 0)).
+Proof. exact hvar_index_packed. Qed.
+Theorem c11_advance_spec : forall f scale gid coords h ix D,
+  0 <= gid < mf_glyph_count f -> mf_hvar f = Some h -> ~ Forall (fun c => c = 0) coords ->
+  Forall (fun m => 0 <= fst m <= 65535) (mf_h_metrics f) ->
+  (match hv_adv_map h with Some m => dsim_lookup m gid | None => Some (0, wrap_u 16 gid) end) = Some ix ->
+  compute_delta (hv_store h) (fst ix) (snd ix) coords = Ok D -> -32768 <= D <= 32767 ->
+  advance_width f scale gid coords = Some (Some (scale_apply scale (hmtx_advance (mf_h_metrics f) gid + D))).
+Proof. exact advance_spec. Qed.
+Theorem c11_lsb_spec : forall f scale gid coords h m ix D,
+  0 <= gid < mf_glyph_count f -> mf_hvar f = Some h -> ~ Forall (fun c => c = 0) coords ->
+  -32768 <= hmtx_lsb (mf_h_metrics f) (mf_lsbs f) gid <= 32767 ->
+  hv_lsb_map h = Some m -> dsim_lookup m gid = Some ix ->
+  compute_delta (hv_store h) (fst ix) (snd ix) coords = Ok D -> -32768 <= D <= 32767 ->
+  left_side_bearing f scale gid coords
+  = Some (Some (scale_apply scale (hmtx_lsb (mf_h_metrics f) (mf_lsbs f) gid + D))).
+Proof. exact lsb_spec. Qed.
+Theorem c11_advance_default_location : forall f scale gid coords, 0 <= gid < mf_glyph_count f ->
+  Forall (fun c => c = 0) coords -> Forall (fun m => 0 <= fst m <= 65535) (mf_h_metrics f) ->
+  advance_width f scale gid coords = Some (Some (scale_apply scale (hmtx_advance (mf_h_metrics f) gid))).
+Proof. exact advance_default_location. Qed.
+Theorem c11_metrics_beyond_glyph_count : forall f scale gid coords, mf_glyph_count f <= gid ->
+  advance_width f scale gid coords = Some None /\ left_side_bearing f scale gid coords = Some None.
+Proof. exact metrics_beyond_glyph_count. Qed.
+Theorem c11_scale_apply_unscaled : forall v, -32767 <= v <= 32767 -> scale_apply 4194304 v = v * 65536.
+Proof. exact scale_apply_unscaled. Qed.
+
+(* the 0xFFFF split: at most MAX_ITEMS rows (in particular exactly MAX_ITEMS) stay one subtable; one more row splits
+   off a second one; no subtable is empty or larger than MAX_ITEMS *)
+Theorem c11_split_exactly_full : forall e : enc, Z.of_nat (length (snd e)) <= MAX_ITEMS -> split_encs [e] = [e].
+Proof. exact split_exactly_full. Qed.
+Theorem c11_split_one_more : forall e : enc, MAX_ITEMS < Z.of_nat (length (snd e)) <= 2 * MAX_ITEMS ->
+  split_encs [e] = [(fst e, firstn (Z.to_nat MAX_ITEMS) (snd e)); (fst e, skipn (Z.to_nat MAX_ITEMS) (snd e))].
+Proof. exact split_one_more. Qed.
+Theorem c11_split_encs_subtables : forall sets encs, (forall e, In e encs -> snd e <> []) ->
+  Forall (fun e => exists st, encode_encoding sets e = Some st /\ 1 <= st_item_count st <= MAX_ITEMS) (split_encs encs).
+Proof. exact split_encs_subtables. Qed.
+
+(* the retrieval theorem for EVERY merge schedule of Encoder::optimize (any list of pairwise merges, with the
+   identical-shape absorb step), starting from Encoder::new's grouping by shape; and build never panics on them *)
+Theorem c11_ivs_retrieval_every_schedule : forall inputs direct sched b ids st km,
+  add_all (builder_new direct) inputs = (b, ids) ->
+  wf_inputs inputs ->
+  Z.of_nat (length (b_regions b)) <= 65536 ->
+  Z.of_nat (length (split_encs (run_schedule (initial_encs b) sched))) <= 65536 ->
+  build_with b (run_schedule (initial_encs b) sched) = Some (st, km) ->
+  forall k ds id r, nth_error inputs k = Some ds -> nth_error ids k = Some id ->
+    row_delta st (remap_get km id None) r = Some (input_delta ds r).
+Proof. exact ivs_retrieval_every_schedule. Qed.
+Theorem c11_build_schedule_total : forall b sched,
+  exists st km, build_with b (run_schedule (initial_encs b) sched) = Some (st, km).
+Proof. exact build_schedule_total. Qed.
+Theorem c11_build_with_total : forall b encs, (forall e, In e encs -> length (fst e) = length (b_regions b)) ->
+  exists st km, build_with b encs = Some (st, km).
+Proof. exact build_with_total. Qed.
+
 Print Assumptions c11_ivs_retrieval.
 Print Assumptions c11_region_renumber_bijective.
 Print Assumptions c11_merge_covers.
@@ -141,3 +265,22 @@ Print Assumptions c11_compute_delta_spec.
 Print Assumptions c11_deltaset_index_map_get.
 Print Assumptions c11_metric_with_delta.
 Print Assumptions c11_narrowing_lossless.
+Print Assumptions c11_avar_monotone_if_map_monotone.
+Print Assumptions c11_user_to_normalized_monotone.
+Print Assumptions c11_compute_delta_total.
+Print Assumptions c11_delta_set_layout.
+Print Assumptions c11_stride_is_row_length.
+Print Assumptions c11_compute_delta_raw_spec.
+Print Assumptions c11_hvar_index_clamps.
+Print Assumptions c11_hvar_index_packed.
+Print Assumptions c11_advance_spec.
+Print Assumptions c11_lsb_spec.
+Print Assumptions c11_advance_default_location.
+Print Assumptions c11_metrics_beyond_glyph_count.
+Print Assumptions c11_scale_apply_unscaled.
+Print Assumptions c11_split_exactly_full.
+Print Assumptions c11_split_one_more.
+Print Assumptions c11_split_encs_subtables.
+Print Assumptions c11_ivs_retrieval_every_schedule.
+Print Assumptions c11_build_schedule_total.
+Print Assumptions c11_build_with_total.
